@@ -21,6 +21,8 @@ func parseJKSEntry(e keystore.Entry) Info {
 		}
 		certInfo, err := parseCertificate(c.Bytes)
 		if err != nil {
+			// keep the certificate's place in the chain instead of dropping it silently
+			info.Children = append(info.Children, Info{Description: "X.509 certificate (unparsable)"})
 			continue
 		}
 		info.Children = append(info.Children, certInfo)
